@@ -285,6 +285,19 @@ theorem c06_instances_independent (st : Style) (items : List (Nat × Outbound)) 
     · have hji : ¬ j = i := fun e => hij e.symm
       simp [sendsTagged, sends, List.filterMap_cons, hij, hji]
 
+
+/-- **Connections one after the other on one object.**  What the child of the second connection receives is the
+sends of the second connection's own items - whatever the first connection sent and however it ended (its items are
+simply not the second child's). -/
+theorem c06_connections_one_after_another (st : Style) (first second : List Outbound) :
+    sendsTagged st (first.map (fun x => (0, x)) ++ second.map (fun x => (1, x))) 1 = sends st second
+    ∧ sendsTagged st (first.map (fun x => (0, x)) ++ second.map (fun x => (1, x))) 0 = sends st first := by
+  have hn : ∀ l : List Outbound, List.filterMap (fun _ : Outbound => (none : Option Outbound)) l = [] := by
+    intro l; induction l with
+    | nil => rfl
+    | cons x xs ih => simp [List.filterMap_cons, ih]
+  constructor <;> simp [sendsTagged, List.filterMap_append, List.filterMap_map, Function.comp_def, hn]
+
 /-- **What the process serialised before does not matter.**  Other calls of the serialiser between the
 writer's messages — with `indent`, `sort_keys`, anything — leave the child's bytes exactly those of the
 messages alone: the serialiser keeps nothing between calls.  (The correspondence run performs such
